@@ -167,6 +167,12 @@ func nativeWithFlavours(v V, flavour int, depth int) any {
 				return uint16(v.I)
 			case v.I >= -(1<<31) && v.I < 1<<31:
 				return int32(v.I)
+			case v.I >= 1<<31 && v.I < 1<<32:
+				return uint32(v.I)
+			case v.I >= 1<<32 && bit(6):
+				return uint64(v.I)
+			case v.I >= 1<<32 && bit(7):
+				return uint(v.I)
 			}
 			return v.I // int64
 		}
@@ -576,6 +582,25 @@ func CheckC13(c *C13Case, st *Stats) error {
 		return nil
 	}
 	st.Count("root." + c.Tree.K.String())
+	if c.Flavour%3 == 0 {
+		// the same content reached through other construction routes (Concat, SubList, typed-slice origin, ...)
+		cont := BuildVariant(c.Tree, 1+c.Flavour+c.ShareFrom)
+		var nat any
+		if o, ok := cont.(at.Object); ok {
+			nat = o.NativeDict()
+		} else {
+			nat = cont.(at.List).NativeSlice()
+		}
+		var foreign []string
+		got := normNative(nat, &foreign, "$")
+		if len(foreign) > 0 {
+			return errf("native export of a container built through other construction routes is not plain Go data: %v\n tree: %s", foreign, c.Tree.Show())
+		}
+		if !EqVBits(got, c.Tree) {
+			return errf("native export of a container built through other construction routes differs: %s, expected %s", got.Show(), c.Tree.Show())
+		}
+		st.Count("construction_routes")
+	}
 	if c.Share {
 		if err := checkSharedInstance(c, st); err != nil {
 			return err
